@@ -11,8 +11,11 @@ static struct aws_ring_buffer s_ring;
 static bool s_have;
 static struct aws_byte_buf s_out[MAXOUT];
 static size_t s_head_idx, s_tail_idx; /* FIFO of outstanding buffers: [s_tail_idx, s_head_idx) */
-static size_t s_inject;               /* releases to perform at the next head load */
-static bool s_saw_tail_load;
+static size_t s_inject;               /* releases to perform at schedule point s_inject_at of the current call */
+static int s_inject_at;               /* 0 = before the first atomic access, 1 = before the second, ... */
+static int s_point;                   /* atomic accesses seen so far in the current call */
+static bool s_in_call;
+static char s_ev[64];                 /* sequence of atomic accesses of the current call, e.g. "LtLhSh" */
 
 static void s_release_oldest(void) {
     if (s_tail_idx < s_head_idx) {
@@ -23,21 +26,44 @@ static void s_release_oldest(void) {
 }
 
 void verif_sched_point(int kind, const volatile void *addr) {
-    if (!s_have) {
+    if (!s_have || !s_in_call) {
         return;
     }
-    if (kind == 0 && addr == (const volatile void *)&s_ring.tail) {
-        s_saw_tail_load = true;
-    }
-    if (kind == 0 && addr == (const volatile void *)&s_ring.head && s_saw_tail_load) {
-        /* the acquirer has loaded tail and is about to load head: the releaser runs now */
+    if (s_point == s_inject_at) {
+        /* the releaser runs now, between two atomic accesses of the acquirer */
         size_t k = s_inject;
         s_inject = 0;
-        s_saw_tail_load = false;
+        s_in_call = false;
         while (k--) {
             s_release_oldest();
         }
+        s_in_call = true;
     }
+    size_t n = strlen(s_ev);
+    if (n + 3 < sizeof(s_ev)) {
+        s_ev[n] = kind == 0 ? 'L' : kind == 1 ? 'S' : 'X';
+        s_ev[n + 1] = addr == (const volatile void *)&s_ring.tail ? 't' : addr == (const volatile void *)&s_ring.head ? 'h' : '?';
+        s_ev[n + 2] = 0;
+    }
+    ++s_point;
+}
+
+static void s_call_begin(const char *k, const char *p) {
+    s_inject = (size_t)atol(k);
+    s_inject_at = atoi(p);
+    s_point = 0;
+    s_ev[0] = 0;
+    s_in_call = true;
+}
+
+static void s_call_end(void) {
+    s_in_call = false;
+    /* a release scheduled behind the last atomic access of the call happens right after it */
+    while (s_inject) {
+        --s_inject;
+        s_release_oldest();
+    }
+    printf("W ev=%s\n", s_ev[0] ? s_ev : "-");
 }
 
 static void s_reset(void) {
@@ -47,10 +73,11 @@ static void s_reset(void) {
     s_have = false;
     s_head_idx = s_tail_idx = 0;
     s_inject = 0;
-    s_saw_tail_load = false;
+    s_in_call = false;
 }
 
 static void s_after_acquire(int rc, struct aws_byte_buf *dest) {
+    s_call_end();
     if (rc == AWS_OP_SUCCESS) {
         size_t off = (size_t)(dest->buffer - s_ring.allocation);
         printf("P acq OK len=%zu\n", dest->capacity);
@@ -90,21 +117,17 @@ int main(void) {
             s_have = true;
         } else if (!s_have) {
             printf("bad-op\n");
-        } else if (!strcmp(t[0], "acq") && n == 3) {
+        } else if (!strcmp(t[0], "acq") && n == 4) {
             struct aws_byte_buf dest;
             AWS_ZERO_STRUCT(dest);
-            s_inject = (size_t)atol(t[1]);
-            s_saw_tail_load = false;
-            int rc = aws_ring_buffer_acquire(&s_ring, hc_parse_size(t[2]), &dest);
-            s_inject = 0;
+            s_call_begin(t[1], t[2]);
+            int rc = aws_ring_buffer_acquire(&s_ring, hc_parse_size(t[3]), &dest);
             s_after_acquire(rc, &dest);
-        } else if (!strcmp(t[0], "upto") && n == 4) {
+        } else if (!strcmp(t[0], "upto") && n == 5) {
             struct aws_byte_buf dest;
             AWS_ZERO_STRUCT(dest);
-            s_inject = (size_t)atol(t[1]);
-            s_saw_tail_load = false;
-            int rc = aws_ring_buffer_acquire_up_to(&s_ring, hc_parse_size(t[2]), hc_parse_size(t[3]), &dest);
-            s_inject = 0;
+            s_call_begin(t[1], t[2]);
+            int rc = aws_ring_buffer_acquire_up_to(&s_ring, hc_parse_size(t[3]), hc_parse_size(t[4]), &dest);
             s_after_acquire(rc, &dest);
         } else if (!strcmp(t[0], "rel") && n == 1) {
             s_release_oldest();
